@@ -5,7 +5,7 @@
    exactly that sequence and passes again.  Decimal spelling (4 vs 4.0), union types and the other content models are covered by
    the document-level correspondence. *)
 From MX Require Import Spec.CharRe Spec.Particle Spec.Deriv Model.SimpleType Model.SimpleTypeThms Model.Parser Gen.SimpleTypes Gen.Code
-  Model.AbsSeq Model.AbsSeqC02 Model.Classes Model.SeqMachine.
+  Model.AbsSeq Model.AbsSeqC02 Model.Classes Model.SeqMachine Model.ChoiceSeq Model.ChoiceClass Model.ChoiceC02.
 From Coq Require Import List String NArith ZArith Bool.
 Import ListNotations.
 Open Scope string_scope.
@@ -51,6 +51,13 @@ Proof.
   destruct (refeed_stable t ops W ND V) as (A & B & _). split; auto.
 Qed.
 Print Assumptions C08_children_stable.
+Theorem C08_children_stable_choice : forall l t ops, is_cseq l = true -> slots_of l = Some t -> forallb c02_ok t = true -> cverdict_ok (cmrun t ops) = true ->
+  let w := AbsSeq.names (cordered (ctree (cmrun t ops))) in
+  AbsSeq.names (cordered (ctree (cmrun t (map MAdd w)))) = w /\ cverdict_ok (cmrun t (map MAdd w)) = true.
+Proof.
+  intros l t ops Cs St G V. destruct (is_cseq_nodup l t Cs St) as [W ND]. destruct (crefeed_stable t ops W G ND V) as (A & B & _). split; auto.
+Qed.
+Print Assumptions C08_children_stable_choice.
 (* RC16: "True" is emitted for a bool and does not read back *)
 Example C08_refuted_bool :
   match resolve lib_st 6 "XSDSimpleTypeMidi16" with Some r => fst (SimpleType.run r (VBool true)) = Ok /\ fst (SimpleType.run r (VStr (cp "True"))) = TypeErr /\ py_int_model (cp "True") = None | None => False end.
